@@ -7,19 +7,23 @@ tree rebuilt through the public API (direct oracle, independent of the model).""
 from .. import storehist as sh
 
 ID = "C06"
-LEVEL = "other"
-THEOREMS = []
+LEVEL = "proof"
+THEOREMS = ["cacheOK_init", "cacheOK_createRootNode", "cacheOK_createAdd", "cacheOK_addDataPointToNode", "cacheOK_removeDataPointFromNode", "cacheOK_removeDataPointFromOutliers", "cacheOK_getSubtree", "cacheOK_removeSubtree", "cacheOK_addSubtree", "cacheOK_relabelNodes", "cacheOK_update", "cacheOK_dictRoundTrip", "cacheOK_step", "cacheOK_reachable_wfc", "cacheOK_reachable", "cacheOK_reachable_of_prefixes", "cacheOK_reachable_legal", "rebuild_eq", "reachable_rebuild", "reachable_rebuild_legal", "wf_ex", "ok_ex"]
 BUDGET = {"quick": 100, "thorough": 900}
 SEARCH_BUDGET = 60
 EXPLANATION = (
-    "The property theorems (cacheOK_step / cacheOK_reachable / rebuild_eq over the store model "
-    "lean/PhyModel/Model/Store.lean, invariants in Proofs/StoreInv.lean) are being written by the proof slice and are "
-    "merged by the lead; until then Props/C06.lean carries an OBLIGATION-OPEN line and the level is `other`.  What this "
-    "run establishes: the executable store model and the real phyclone.tree.Tree agree after every op of every generated "
-    "edit history (shape, per-clone data, cached log_p / log_r as exact rationals vs floats, root vector, both joint "
-    "densities, name/index maps up to a bijection, which ops raise), and the direct oracle (exact recomputation of every "
-    "cached vector from the data along an independent traversal; densities of a tree rebuilt from scratch) holds on every "
-    "live handle after every op of every history in the samplers' grammar.")
+    "Theorems (Props/C06, on the executable store model lean/PhyModel/Model/Store.lean that mirrors phyclone.tree.Tree method "
+    "by method): CacheOK (every clone's cached p = prior x product of its data, r = p (.) S(children's cached r); root vector "
+    "when a clone exists) holds for the empty tree and is preserved by every edit operation (one theorem per operation, "
+    "cacheOK_step over several live handles, cacheOK_reachable / cacheOK_reachable_legal for every legal history of any "
+    "length); rebuild_eq: under CacheOK every cached vector equals the from-scratch recursion of Model/Tree.lean and both "
+    "cache-read densities equal Density.pOne / pMarg of the abstract tree.  Hypotheses: likelihood values non-zero (C05) "
+    "and data indices inside the data set where a data point is removed; well-formedness along the run comes from C07.  "
+    "This run: model and real Tree agree after every op of every generated edit history (shape, per-clone data, cached "
+    "log_p / log_r as exact rationals vs floats, root vector, both joint densities, name/index maps up to a bijection, which "
+    "ops raise), and the direct oracle (exact recomputation of every cached vector along an independent traversal; "
+    "densities of a tree rebuilt from scratch) holds on every live handle after every op of every sampler-grammar history."
+)
 RULE = (
     "edit histories of 5-60 ops (thorough: every 6th 150-400 ops) over 1-7 data points, 1-2 samples, grid 2-5, dyadic "
     "likelihoods >= 1/8, with and without outliers, from the samplers' grammar (SMC placements on copies / dict and pickle "
